@@ -268,4 +268,23 @@ CLAIMS = {
         'technique': 'static analysis: dominance of guards over mapping construction, finite-domain tables of '
                      'is_primitive / operator dispatch / conflict bookkeeping, regex enumeration (ast only)',
     },
+    'C07': {
+        'text': "Each of 25 assert_* conditions is executed abstractly (whitelist interpreter over its AST) on a finite "
+                "domain of operand values per family (ordering incl. sets and NaN, membership, subset, identity, "
+                "truthiness, None-ness, length, instance, attribute, regex) in every wrapping combination raw/proxied "
+                "(a transparent proxy model whose C-level consumers behave as in CPython) and with error operands "
+                "in every position - about 1400 evaluations - and compared with the Python relation computed by "
+                "CPython on the raw values: wrong relation, silent pass on error operands, proxy-dependent outcome and "
+                "non-complementary pairs are findings. The equality family is tabulated over equality outcome x error "
+                "operand with argument order checked; equality_test itself is executed abstractly on 18 value pairs "
+                "in both orders plus 11 pairs with documented outcomes; the wrapper's treatment of a raising condition "
+                "and unit_test's accounting (child filing by status, group condition, counts, once-per-case loop) are "
+                "decided on the code.",
+        'note': _NOTE + "Known finding: the wrapper swallows condition errors (unevaluable relation -> silent pass). "
+                        "Not decided: value-level behaviour of equality_test beyond the tabulated pairs, assert_type's "
+                        "subtype relation (C19 covers its inputs), the output-assertion family beyond the errors() "
+                        "disjunct.",
+        'technique': 'static analysis: finite-domain decision tables by abstract interpretation of every assertion '
+                     'condition and of equality_test vs CPython operator oracle (ast only)',
+    },
 }
